@@ -200,7 +200,7 @@ def run(ctx):
     registry = regmod.build_registry()
     mf = mir.MirFile(mir_path("rspirv"))
     fn = mf.get("parse", file_hint="parser.rs", kind="fn")
-    eng = sym.Engine([mf], registry, models=mk_models(), inline=[r"^Action::consume$"], eager=True, loop_bound=K + 1,
+    eng = sym.Engine([mf], registry, models=mk_models(), inline=[r"^Action::consume$", r"^Decoder::<'_>::(offset|has_limit|limit_reached)$"], eager=True, loop_bound=K + 1,
                      hints={"consume": "parser.rs"})
     parser = sym.Sym("parser", "Parser")
     res = eng.run(fn, [parser])
